@@ -368,13 +368,13 @@ pub open spec fn read_progress(s0: Seq<u8>, n: int, k: int, sa: Seq<Option<Socke
         }
 //@loop 1
         invariant
-            server_address_n == (if num_server_addresses < 32 { num_server_addresses } else { 32usize }),
-            forall|i: int| 0 <= i < server_address_idx ==> ((#[trigger] server_addresses@[i]) matches Some(a) && wire_addr(a)),   // @C16 read_addresses.every_record_read_fills_its_slot
-            forall|i: int| server_address_idx <= i < 32 ==> (#[trigger] server_addresses@[i]) is None,
-            read_progress(s0, num_server_addresses as int, server_address_idx as int, server_addresses@, (*src).rest()),          // @C16 read_addresses.reader_follows_the_written_records
+            $IDX1 <= 32,                                                                                                          // @C07 read_addresses.slot_index_stays_inside_the_32_slots
+            forall|jj: int| 0 <= jj < $IDX1 ==> ((#[trigger] server_addresses@[jj]) matches Some(a) && wire_addr(a)),   // @C16 read_addresses.every_record_read_fills_its_slot
+            forall|jj: int| $IDX1 <= jj < 32 ==> (#[trigger] server_addresses@[jj]) is None,
+            read_progress(s0, num_server_addresses as int, $IDX1 as int, server_addresses@, (*src).rest()),          // @C16 read_addresses.reader_follows_the_written_records
 //@before /let host_type = read_u8\(src\)\?;/
             let ghost rk = (*src).rest();
-            let ghost k = server_address_idx as int;
+            let ghost k = $IDX1 as int;
             proof {
                 // seen from a serialized list, the record of slot k comes next (k < count: the slot is occupied)
                 assert forall|l: Seq<Option<SocketAddr>>, tail: Seq<u8>| #[trigger] is_addresses_wire(s0, l, tail) implies
@@ -400,7 +400,7 @@ pub open spec fn read_progress(s0: Seq<u8>, n: int, k: int, sa: Seq<Option<Socke
                     }
                 }
             }
-//@after /\*server_address = Some\(addr\);/ 1
+//@after / = Some\(addr\);/ 1
                 proof {
                     assert forall|l: Seq<Option<SocketAddr>>, tail: Seq<u8>| #[trigger] is_addresses_wire(s0, l, tail) implies
                         l[k] == Some(addr) && (*src).rest() == list_wire_then(l.subrange(k + 1, 32), tail) by {
@@ -413,7 +413,7 @@ pub open spec fn read_progress(s0: Seq<u8>, n: int, k: int, sa: Seq<Option<Socke
                         net_addr_axioms::axiom_v4_ext(y, x);
                     }
                 }
-//@after /\*server_address = Some\(addr\);/ 2
+//@after / = Some\(addr\);/ 2
                 proof {
                     assert forall|l: Seq<Option<SocketAddr>>, tail: Seq<u8>| #[trigger] is_addresses_wire(s0, l, tail) implies
                         l[k] == Some(addr) && (*src).rest() == list_wire_then(l.subrange(k + 1, 32), tail) by {
@@ -432,8 +432,8 @@ pub open spec fn read_progress(s0: Seq<u8>, n: int, k: int, sa: Seq<Option<Socke
             assert forall|l: Seq<Option<SocketAddr>>, tail: Seq<u8>| #[trigger] is_addresses_wire(s0, l, tail) implies
                 server_addresses@.take(k + 1) == l.take(k + 1) by {
                 assert(server_addresses@.take(k + 1) =~= l.take(k + 1)) by {
-                    assert forall|i: int| 0 <= i < k + 1 implies (#[trigger] server_addresses@.take(k + 1)[i]) == l.take(k + 1)[i] by {
-                        if i < k { assert(server_addresses@.take(k)[i] == l.take(k)[i]); }
+                    assert forall|jj: int| 0 <= jj < k + 1 implies (#[trigger] server_addresses@.take(k + 1)[jj]) == l.take(k + 1)[jj] by {
+                        if jj < k { assert(server_addresses@.take(k)[jj] == l.take(k)[jj]); }
                     }
                 }
             }
@@ -444,14 +444,14 @@ pub open spec fn read_progress(s0: Seq<u8>, n: int, k: int, sa: Seq<Option<Socke
             assert(all_wire(server_addresses@));
             assert forall|l: Seq<Option<SocketAddr>>, tail: Seq<u8>| #[trigger] is_addresses_wire(s0, l, tail) implies
                 server_addresses@ == l && (*src).rest() == tail by {
-                let n = server_address_n as int;
+                let n = (if num_server_addresses < 32 { num_server_addresses as int } else { 32int });
                 addr_lemmas::lemma_dense_count(l);
                 assert(n == count_some(l));
-                assert forall|i: int| 0 <= i < l.subrange(n, 32).len() implies (#[trigger] l.subrange(n, 32)[i]) is None by { assert(l.subrange(n, 32)[i] == l[n + i]); }
+                assert forall|jj: int| 0 <= jj < l.subrange(n, 32).len() implies (#[trigger] l.subrange(n, 32)[jj]) is None by { assert(l.subrange(n, 32)[jj] == l[n + jj]); }
                 addr_lemmas::lemma_all_none(l.subrange(n, 32), tail);
                 assert(server_addresses@ =~= l) by {
-                    assert forall|i: int| 0 <= i < 32 implies (#[trigger] server_addresses@[i]) == l[i] by {
-                        if i < n { assert(server_addresses@.take(n)[i] == l.take(n)[i]); }
+                    assert forall|jj: int| 0 <= jj < 32 implies (#[trigger] server_addresses@[jj]) == l[jj] by {
+                        if jj < n { assert(server_addresses@.take(n)[jj] == l.take(n)[jj]); }
                     }
                 }
             }
